@@ -2144,7 +2144,7 @@ def FBG(
         R = rho[: len(rho) // 2]
         S = rho[len(rho) // 2 :]
 
-        if apo_func:
+        if apo_func is not None:
             p = apo_func(z)
             s = s * p
             k = k * p
